@@ -4,7 +4,7 @@ import json, os
 V = '/verif'
 INFO = {
  'C01': ('Newick write->parse round trip', 'THEOREMS (RoundTrip.v): for every arena representing a labelled tree with admissible labels (incl. removed slots, quoted labels, labels on the root, single nodes) writing then parsing returns exactly that labelled tree and the identical text again, under the visible premises H1/H2 on float Display/FromStr. CHECK: API-built / parsed / edited trees with all f64 classes; implementation-side bit-exact round-trip predicate', '4/C01', 'H1/H2 (std float printing/parsing) are premises, checked on every value used; empty-string labels excluded (known finding KF1)'),
- 'C02': ('parser total + well-formed results', 'THEOREMS (ParserProps.v, NormalForm.v): for EVERY string no panic / no fuel exhaustion; an accepted text yields one rooted tree with preorder ids, exact depths, mirrored lengths; a terminating semicolon and balanced parentheses are necessary; under balanced label quotes the written form parses back to the same labelled tree and is written identically again. CHECK: exhaustive strings <= 5 (quick) / 6 (thorough) over the 12-symbol alphabet + Unicode fuzz + mutated Newick, arena-exact', '4/C02', 'H1/H2/Hok premises on std float printing/parsing for the normal-form clause'),
+ 'C02': ('parser total + well-formed results', 'THEOREMS (ParserProps.v, NormalForm.v, NormalFormRefuted.v): for EVERY string no panic / no fuel exhaustion; an accepted text yields one rooted tree with preorder ids, exact depths, mirrored lengths; a terminating semicolon and balanced parentheses are necessary; under balanced label quotes the written form parses back to the same labelled tree and is written identically again. CHECK: exhaustive strings <= 5 (quick) / 6 (thorough) over the 12-symbol alphabet + Unicode fuzz + mutated Newick, arena-exact', '4/C02', 'H1/H2/Hok premises on std float printing/parsing for the normal-form clause'),
  'C03': ('arena invariants under edit histories', 'THEOREMS (RepLib.v, WFOps.v, Invariants.v): the invariant (one rooted tree, ids = positions, no reference to removed nodes, child-side = parent-side length, cached depth = distance to root; plus sorted child-edge keys and blank removed slots) holds for the empty arena, every parser / generator / UPGMA result and is preserved by every operation with every argument and every resolve choice list, hence by every history. CHECK: exhaustive depth-2/3 histories on all small start trees + random walks, full arena dump after every op', '4/C03', 'WF alone is not inductive for the model (machine-checked counterexample); WFS / Inv are the model-side invariants'),
  'C04': ('queries depend only on the tree', 'THEOREMS (HistoryIndep.v): caches stay coherent and never influence an answer; two arenas representing the same labelled tree answer every listed query alike (same_answers); the re-parsed arena is such an arena (C04_reparse); removed slots unobservable. CHECK: random edit/query interleavings, then re-parse and compare by canonical node position', '4/C04', 'the depth stored with a bipartition (observable only via compare_branch_lengths, not a query of this property) is history dependent and excluded'),
  'C05': ('bipartitions = non-trivial splits', 'THEOREMS (Splits.v): sound, complete, each split once, canonical side irrelevant; invariant under child reordering, unary nodes, root redrawing, injective renaming. CHECK: every shape <= 5/6 leaves x every name permutation x variants, random to 40/300 leaves, rename sequences', '4/C05', ''),
@@ -17,8 +17,8 @@ INFO = {
  'C12': ('shape statistics', 'THEOREMS (Stats.v): leaf count, rooted, binary, cherries, Colless, Sackin (cached depths), refusals, total length, height, diameter equal their definitions on the represented tree. CHECK: all binary shapes <= 7/9 leaves, random, edited and UPGMA trees', '4/C12', 'Yule/PDA normalisations (ln, powf) applied by the comparator: partial'),
  'C13': ('triangular storage', 'THEOREMS (Tril.v, TrilN.v, TrilFloat.v): pair<->cell bijection for every n, get/set laws, iteration, to_map, first-min/max; the f64 inverse of the crate (primitive binary64 floats) equals the integer inverse for every index < 2^50. CHECK: all cells n <= 24/64, overwrites incl. zero, relabelling; float inverse vs integer inverse around every triangular number < 2^50 through the hook', '4/C13', 'float theorems depend on the stdlib specifications of primitive floats/ints + classical/Reals axioms (named in DESIGN.md); that Rust f64 ops are IEEE binary64 RNE is trusted and swept through the hook'),
  'C14': ('Phylip codec', 'THEOREMS (PhylipProps.v): round trip (2 layouts x 3 entry points) returns the original matrix; total on every text; strict rejections. CHECK: all f32/f64 classes, exhaustive short texts, mutated files', '4/C14', 'H1/H2/Hz/Heq premises on cell printing/parsing; KF2, KF3 known findings'),
- 'C15': ('UPGMA', 'THEOREMS (UpgmaProps.v): rooted binary tree over exactly the taxa (any LenOps with a dominating marker); over Q: ultrametric, average-linkage invariant, monotone heights, non-negative lengths, agreement with definitional average linkage (unique when minima strict). CHECK: exhaustive small integer matrices, ties, zeros, > 64 taxa, ultrametric inputs', '4/C15', 'float rounding outside (KF4)'),
- 'C16': ('output formats + Nexus', 'THEOREMS (Formats.v): every format = full format of the erased arena, for every arena. CHECK: 9 formats x label mixtures, parse-back, Nexus after edits', '4/C16', 'Nexus template compared by the check'),
+ 'C15': ('UPGMA', 'THEOREMS (UpgmaProps.v): rooted binary tree over exactly the taxa (any LenOps with a dominating marker); over Q: ultrametric, average-linkage invariant, monotone heights, non-negative lengths, agreement with definitional average linkage (unique when minima strict); ultrametric input: tips meet at their LCA at height cell/2 and get_distance returns the matrix entry (UpgmaUltra.v, with refuted examples for non-ultrametric input). CHECK: exhaustive small integer matrices, ties, zeros, > 64 taxa, ultrametric inputs', '4/C15', 'float rounding outside (KF4)'),
+ 'C16': ('output formats + Nexus', 'THEOREMS (Formats.v, FormatsRT.v, NexusProps.v): every format = full format of the erased arena, for every arena; the text of every format parses back to the same skeleton carrying exactly the retained labels and is written identically again; Nexus pieces = full Newick, live-tip count, live-tip names. CHECK: 9 formats x label mixtures, parse-back, Nexus after edits', '4/C16', 'the fixed Nexus template text around the pieces is compared by the check'),
  'C17': ('random generators', 'THEOREMS (Generators.v): for EVERY choice list: well formed, 2n-1 nodes, n leaves, rooted strictly binary, unique Tip_j names, lengths present/absent; caterpillar shape; n = 0 refused. CHECK: seeds via hook, choices read back and replayed on the model', '4/C17', 'distribution supports belong to rand_distr: checked on outputs'),
  'C18': ('CLI', 'THEOREMS (Cli.v model, CliProps.v): collapse changes exactly the lengths strictly below the threshold (tips excluded on request, root untouched); remove = prune* then compress: invariant kept, no unary node, named tips gone, remaining distances preserved; rescale; + the library theorems for the report subcommands. CHECK: the real binary on generated files (layouts, options), compared with the model as independent computation', '4/C18', 'process layer observed, not modelled'),
  'C19': ('radial layout', 'THEOREMS (LayoutProps.v): arena layout = spec layout; one segment per non-root node; direction = wedge middle; wedges disjoint / proportional / summing (Q turns); |segment| = length (R). CHECK: coordinates vs model angles at 1e-9, after merge/resolve', '4/C19', 'sin/cos/pi outside the model; two R-level lemmas use the Reals axioms'),
